@@ -277,6 +277,14 @@ func c19(x *mon.Ctx) {
 		cf := write("rot-wrong.bin", b)
 		add("bundle", "config-wrong-root", "", 2, -1, false, "-in", qf, "-config", cf)
 		add("bundle", "config-wrong-root-flag-right-root", "", 0, -1, true, "-in", qf, "-config", cf, "-trusted_roots", rootf)
+		// a flag, when given, REPLACES the config's bundle list: config lists the right root, flag lists only a wrong one
+		cfg = &ccpb.Config{RootOfTrust: &ccpb.RootOfTrust{CabundlePaths: []string{rootf}}}
+		b, _ = proto.Marshal(cfg)
+		cfr := write("rot-right.bin", b)
+		add("bundle", "config-right-root", "", 0, -1, true, "-in", qf, "-config", cfr)
+		add("bundle", "config-right-root-flag-wrong-root", "", 2, -1, false, "-in", qf, "-config", cfr, "-trusted_roots", wrongRootf)
+		tb, _ := prototext.Marshal(cfg)
+		add("bundle", "textproto-config-right-root-flag-wrong-root", "", 2, -1, false, "-in", qf, "-config", write("rot-right.textproto", tb), "-trusted_roots", wrongRootf)
 		cfg = &ccpb.Config{RootOfTrust: &ccpb.RootOfTrust{Cabundles: []string{string(w.PKI.Root.PEM)}}}
 		b, _ = proto.Marshal(cfg)
 		add("bundle", "config-inline-right-root", "", 0, -1, true, "-in", qf, "-config", write("rot-inline.bin", b))
